@@ -721,6 +721,8 @@ class FitsSim:
                 op["resized"] = [rs.randrange(1, 9), rs.randrange(1, 9)]
         if rs.random() < 0.3:
             op["pixel_scales"] = rs.choice([0.2, 1.0, [1.0, 2.0]]) if reader not in ("Array1D", "Mask1D") else rs.choice([0.2, 1.0])
+        if reader == "Kernel2D" and rs.random() < 0.3:
+            op["normalize"] = True
         return op
 
     # -- applying one operation (both generation and replay go through here) ----------------------
@@ -1067,7 +1069,7 @@ class FitsSim:
         try:
             cls = getattr(aa, reader)
             if reader == "Kernel2D":
-                res = cls.from_fits(file_path=arg, hdu=0, pixel_scales=ps, normalize=False)
+                res = cls.from_fits(file_path=arg, hdu=0, pixel_scales=ps, normalize=bool(op.get("normalize", False)))
             else:
                 res = cls.from_fits(file_path=arg, hdu=0, pixel_scales=ps, **kwargs)
         except Exception as e:  # noqa: BLE001
@@ -1117,6 +1119,14 @@ class FitsSim:
             self._cmp_values(reader, "mask booleans", cond, exp, got, step, bool_kind=True)
         elif reader == "Mask1D":
             self._cmp_values(reader, "mask booleans", cond, expected.astype(bool), np.array(res), step, bool_kind=True)
+        elif reader == "Kernel2D" and op.get("normalize"):
+            got = np.array(res.native)
+            total = float(np.sum(expected))
+            self.probe("kernel_read_normalized")
+            if got.shape != expected.shape:
+                self.report("read_mismatch", reader, "shape", cond, repr(expected.shape), repr(got.shape), step)
+            elif total != 0.0 and np.all(np.isfinite(expected / total)) and not np.allclose(got, expected / total, rtol=1e-12, atol=0.0):
+                self.report("read_mismatch", reader, "normalized values", cond, repr((expected / total).tolist())[:200], repr(got.tolist())[:200], step)
         else:
             got = np.array(res.native)
             self._cmp_values(reader, "native values", cond, expected, got, step)
